@@ -201,6 +201,20 @@ fn extra_cases(ctx: &Ctx) -> Vec<AlgoCase> {
             for method in [5u8, 4, 2, 6] { if (k + method as usize) % 2 == 0 || ctx.big { push(&mut rng, 0, method, n, "uniform"); } }
         }
     }
+    if ctx.prop == "C12" {
+        // Ward and median at the top of their domain for the size (see the family): finite heights
+        for &n in (if ctx.big { &[40u64, 64, 200, 700][..] } else { &[40u64, 64, 200][..] }) {
+            for method in [4u8, 6] { for algo in [0u8, 2, 3, 4] {
+                if algo == 4 && n > 64 { continue; }
+                if accepts(algo, method) {
+                    for wide in [true, false] {
+                        let v = matrix_f64(&mut rng, n as usize, "nearlimit", wide);
+                        out.push(AlgoCase { algo, method, wide, n, bits: to_bits(&v, wide), family: "nearlimit" });
+                    }
+                }
+            }}
+        }
+    }
     out
 }
 
@@ -956,6 +970,32 @@ fn slot_probe(ctx: &Ctx, rep: &mut Report) {
                     }
                 }
             }
+            // the probed slot holds the IEEE negative zero, everything else is positive: -0.0 is the
+            // unique smallest entry (it compares equal to +0.0 and below every positive value), whatever
+            // its bit pattern looks like as an integer
+            if n <= 64 {
+                let mut z = v.clone(); z[k] = -0.0;
+                for algo in 0..5u8 {
+                    let methods: Vec<u8> = if n <= 16 { (0..4).filter(|&m| accepts(algo, m)).collect() } else { vec![if accepts(algo, 1) { 1 } else { 0 }] };
+                    for method in methods {
+                        let wide = (k + algo as usize) % 2 == 1;
+                        let c = AlgoCase { algo, method, wide, n, bits: to_bits(&z, wide), family: "probe-0" };
+                        let out = run_fresh_w(wide, algo, method, n, &c.bits);
+                        rep.evaluations += 1;
+                        match &out {
+                            Outcome::Ok { steps, .. } => {
+                                let (i, j) = prs[k];
+                                if steps.is_empty() || (steps[0].c1, steps[0].c2) != (i, j) || height(&c, &steps[0]) != 0.0 {
+                                    rep.violation(format!("C07 violated: n={} slot {} is pair ({}, {}) and holds -0.0, the unique smallest entry (all others >= 2) but the first step of {} {} {} merges ({}, {}) at {:e}",
+                                        n, k, i, j, ALGO_NAMES[algo as usize], METHOD_NAMES[method as usize], if wide { "f64" } else { "f32" },
+                                        steps.get(0).map(|s| s.c1).unwrap_or(0), steps.get(0).map(|s| s.c2).unwrap_or(0), steps.get(0).map(|s| height(&c, s)).unwrap_or(f64::NAN)));
+                                }
+                            }
+                            Outcome::Panic(kk, m) => rep.violation(format!("C07 violated: panic {} {} on negative-zero probe n={} slot={}", kk, m, n, k)),
+                        }
+                    }
+                }
+            }
             for algo in 0..5u8 {
                 if algo == 4 && n > 150 { continue; }
                 let methods: Vec<u8> = if n <= 16 { (0..7).filter(|&m| accepts(algo, m)).collect() } else { vec![0] };
@@ -1039,6 +1079,17 @@ fn cost(ctx: &Ctx, rep: &mut Report) {
                 cases.push(AlgoCase { algo, method, wide, n, bits: to_bits(&v, wide), family: "satellite" });
             }}
         }
+    }
+    // a block of exact duplicates at the far end of one long chain (zero is the floor of the squared
+    // methods: "merge duplicates at once" shortcuts must keep the chain they were found through)
+    for &n in &sizes {
+        if n < 16 { continue; }
+        for method in 0..5u8 { for &algo in &[0u8, 2] {
+            if !accepts(algo, method) { continue; }
+            let wide = (n + method as u64) % 3 != 0;
+            let v = matrix_f64(&mut rng, n as usize, "decgapdups", wide);
+            cases.push(AlgoCase { algo, method, wide, n, bits: to_bits(&v, wide), family: "decgapdups" });
+        }}
     }
     for c in cases {
         tick(&ctx.progress, &c.describe());
@@ -1214,6 +1265,46 @@ fn reuse(ctx: &Ctx, rep: &mut Report) {
     for hnd in handles { match hnd.join() { Ok(bad) => { threaded += shared.len() as u64; for b in bad { rep.violation(format!("C08 violated: history gives different bits when run concurrently on 16 threads :: {}", b)); } } Err(_) => rep.violation("C08 violated: worker thread panicked".to_string()) } }
     rep.evaluations += threaded;
     rep.extra.push(("histories_on_16_threads".to_string(), threaded.to_string()));
+    // ... and larger problems of DIFFERENT sizes at the same moment, each thread on its own state,
+    // dendrogram and matrix (anything shared behind the scenes - a process-wide cache keyed by the
+    // size, say - is hit by calls that start within nanoseconds of each other)
+    let sizes: [u64; 6] = [512, 520, 528, 536, 600, 1030];
+    let mut refs: Vec<(u64, Vec<u64>, Outcome, Outcome)> = vec![];
+    for &n in &sizes {
+        let v = matrix_f64(&mut rng, n as usize, "uniform", true);
+        let bits = to_bits(&v, true);
+        tick(&ctx.progress, &format!("concurrent sizes: reference n={}", n));
+        let r1 = run_fresh_w(true, 1, 0, n, &bits);
+        let r2 = run_fresh_w(true, 0, 2, n, &bits);
+        refs.push((n, bits, r1, r2));
+    }
+    let refs = Arc::new(refs);
+    let rounds = if ctx.big { 2000 } else { 800 };
+    let mut handles = vec![];
+    for t in 0..16usize {
+        let rf = refs.clone();
+        handles.push(std::thread::spawn(move || {
+            crate::common::install_panic_hook();
+            let mut st: kodama::LinkageState<f64> = kodama::LinkageState::new();
+            let mut d: kodama::Dendrogram<f64> = kodama::Dendrogram::new(0);
+            let mut bad: Vec<String> = vec![];
+            for r in 0..rounds {
+                // mostly one size per thread (so that the threads differ), now and then another one
+                let (n, bits, r1, r2) = &rf[if r % 7 == 6 { (t + r) % 6 } else { t % 6 }];
+                let average = r % 16 == 5;
+                let out = run_reused_quiet::<f64>(&mut st, &mut d, if average { 0 } else { 1 }, if average { 2 } else { 0 }, *n, bits);
+                if tokens(&out) != tokens(if average { r2 } else { r1 }) && bad.len() < 3 {
+                    bad.push(format!("thread {} call #{}: {} n={} differs from the single-threaded fresh call{}", t, r + 1, if average { "linkage_with average" } else { "mst_with" }, n,
+                        match &out { Outcome::Panic(k, m) => format!(" (panic {} {})", k, m), _ => String::new() }));
+                }
+            }
+            bad
+        }));
+    }
+    let mut conc = 0u64;
+    for hnd in handles { match hnd.join() { Ok(bad) => { conc += rounds as u64; for b in bad { rep.violation(format!("C08 violated: 16 threads clustering matrices of different sizes (512 .. 1030) at once, each on its own objects :: {}", b)); } } Err(_) => rep.violation("C08 violated: worker thread panicked".to_string()) } }
+    rep.evaluations += conc;
+    rep.extra.push(("concurrent_calls_of_different_sizes".to_string(), conc.to_string()));
 }
 
 // ------------------------------------------------------------------ C19
@@ -1304,7 +1395,9 @@ fn container_clustering(ctx: &Ctx, rep: &mut Report) {
         let mut n = rng.range(2, 12);
         for call in 0..6 {
             let method = loop { let m = rng.below(7) as u8; if accepts(algo, m) { break m; } };
-            let v = matrix_f64(&mut rng, n as usize, ["uniform", "lattice", "euclid"][call % 3], wide);
+            // tie-heavy matrices too: with values that are not dyadic (0.1, 0.7, ...) rounding makes the
+            // averaged heights of a constant matrix differ in the last bit, and sorting then reorders the merges
+            let v = matrix_f64(&mut rng, n as usize, ["uniform", "lattice", "euclid", "allequal", "neartie", "duppoints"][(call + w / 5) % 6], wide);
             let bits = to_bits(&v, wide);
             tick(&ctx.progress, &format!("container: clustering walk {} call {} n={}", w, call, n));
             let out = if wide { run_reused::<f64>(&mut st64, &mut d64, algo, method, n, &bits) } else { run_reused::<f32>(&mut st32, &mut d32, algo, method, n, &bits) };
@@ -1445,12 +1538,21 @@ fn shape_sweep(rep: &mut Report, seed: u64, big: bool, progress: &Progress) {
                 let use_with = rng.below(2) == 0;
                 let good = wellformed(n, len);
                 if good && n > 40 { continue; }
+                // malformed shapes are rejected whatever the slice contains: every fourth one holds an
+                // entry whose square overflows, an infinity, a subnormal or a negative zero (value-dependent
+                // paths that run before the shape check)
+                let special: Option<(usize, f64)> = if !good && len > 0 && rng.below(4) == 0 {
+                    let x = match rng.below(5) { 0 | 1 => if wide { 1e200 } else { 3e19 }, 2 => f64::INFINITY, 3 => if wide { 5e-324 } else { 1.4e-45 }, _ => -0.0 };
+                    Some((rng.below(len as u64) as usize, x))
+                } else { None };
                 let res: Result<usize, (u64, String)> = if wide {
                     let mut m: Vec<f64> = vals[..len].to_vec();
+                    if let Some((i, x)) = special { m[i] = x; }
                     if use_with && n < (1 << 40) { catch(|| { call_with::<f64>(algo, method, &mut st64, &mut m, n as usize, &mut d64); d64.len() }) }
                     else { catch(|| call_fresh::<f64>(algo, method, &mut m, n as usize).len()) }
                 } else {
                     let mut m: Vec<f32> = vals[..len].iter().map(|&x| x as f32).collect();
+                    if let Some((i, x)) = special { m[i] = x as f32; }
                     if use_with && n < (1 << 40) { catch(|| { call_with::<f32>(algo, method, &mut st32, &mut m, n as usize, &mut d32); d32.len() }) }
                     else { catch(|| call_fresh::<f32>(algo, method, &mut m, n as usize).len()) }
                 };
